@@ -27,6 +27,12 @@ func (k msgServer) CreatePromoter(goCtx context.Context, msg *types.MsgCreatePro
 		return nil, err
 	}
 
+	// an address belongs to one promoter only: a second promoter for the same address would take over
+	// its address index entry and with it the category caps of the campaigns of the first one.
+	if k.IsPromoter(ctx, msg.Creator) {
+		return nil, sdkerrors.Wrapf(sdkerrtypes.ErrInvalidRequest, "address %s already belongs to a promoter", msg.Creator)
+	}
+
 	k.SetPromoter(ctx, types.Promoter{
 		Creator:   msg.Creator,
 		Addresses: []string{msg.Creator},
